@@ -28,6 +28,14 @@ def check(run, tier):
         progs += [p for p in targeted.config_programs(dev) if "diti" in p["id"] or "autosplit" in p["id"]]
     for dev in ("evo", "fluent"):
         progs += [p for p in targeted.shape_programs(dev) if "broadcast" in p["id"]]
+    # volumes far below and far above what the records can print (1/1024 and 2^-40 microlitre, units of 1024 microlitres)
+    r4 = rng("C07-units")
+    for i in range(30 if q else 600):
+        dev = "evo" if i % 2 == 0 else "fluent"
+        unit = [Fraction(1, 1024), Fraction(1, 2**40), Fraction(2**10)][i % 3]
+        progs.append(programs.worklist_program(r4, f"C07/u{i}", dev, r4.randint(1, 5), unit=unit, maxunits=64, wlmax=r4.choice([7, 100]), comps=False,
+                                               flags={"records": False, "robot": False},
+                                               weights={"transfer": 1, "distribute": 0, "aspirate": 0, "dispense": 0, "add": 0, "remove": 0}))
     for p in targeted.device_programs():
         if "wash-schemes" in p["id"]:
             progs += [p, dict(p, dev="fluent", id=p["id"] + "/fluent")]
